@@ -1114,3 +1114,92 @@ Section FromNew.
         apply (aq_init_lookup bf pend a _ ND). rewrite E. split; [reflexivity|discriminate].
   Qed.
 End FromNew.
+
+(* ------------------------------------------------------------------------- *)
+(* what [avail] is, in terms of the input and the earlier trace only *)
+
+Lemma astep_In_other o b aq a q : In (a, q) (astep o b aq) -> a <> b -> In (a, q) aq.
+Proof.
+  unfold astep. intros H Hne. apply in_flat_map in H as ([c q'] & Hin & H). cbn in H.
+  destruct (N.eqb_spec c b) as [->|].
+  - destruct o, q' as [|? [|? ?]]; cbn in H; try contradiction.
+    destruct H as [H|[]]. injection H as ? ?; subst. congruence.
+  - destruct H as [H|[]]. injection H as ? ?; subst. auto.
+Qed.
+
+Lemma aq_after_char bf tr : forall aq, NoDup (map fst aq) -> atrace bf aq tr ->
+  forall a q,
+  (In (a, q) (aq_after aq tr) -> In (a, proj a tr ++ q) aq /\ no_pop a tr) /\
+  (q <> [] -> In (a, proj a tr ++ q) aq -> no_pop a tr -> In (a, q) (aq_after aq tr)).
+Proof.
+  induction tr as [|[it o] tr IH]; intros aq ND H a q.
+  { cbn. split; [intros Hin; split; auto; intros it []|auto]. }
+  destruct H as (Hin & _ & Hr). cbn [aq_after].
+  destruct (head_in_split _ _ _ ND Hin) as (aq1 & q0 & aq2 & Eaq & _ & N1 & N2).
+  set (b := it_from it) in *.
+  assert (ND' := astep_NoDup o b aq ND).
+  assert (Estep : astep o b aq = aq1 ++ astep_entry o b (it_tx it :: q0) ++ aq2)
+    by (rewrite Eaq; now apply astep_split).
+  destruct (IH _ ND' Hr a q) as [IH1 IH2].
+  rewrite proj_cons. fold b.
+  assert (Hhead : In (b, it_tx it :: q0) aq) by (rewrite Eaq; apply in_or_app; right; now left).
+  destruct (N.eqb_spec b a) as [<-|Hne].
+  - split.
+    + intros Hq. destruct (IH1 Hq) as [Hq' Hnp].
+      assert (o = OShift /\ q0 = proj b tr ++ q) as [-> ->].
+      { rewrite Estep in Hq'. apply in_app_or in Hq' as [Hq'|Hq'].
+        - exfalso. apply N1. apply (in_map fst) in Hq'. exact Hq'.
+        - apply in_app_or in Hq' as [Hq'|Hq'].
+          + destruct o, q0 as [|t1 q1]; cbn in Hq'; try contradiction.
+            destruct Hq' as [Hq'|[]]. injection Hq' as Hq'. split; auto.
+          + exfalso. apply N2. apply (in_map fst) in Hq'. exact Hq'. }
+      split; [exact Hhead|].
+      intros it' [E|Hin']; [discriminate|]. now apply Hnp.
+    + intros Hqne Hq Hnp.
+      assert (E : it_tx it :: q0 = (it_tx it :: proj b tr) ++ q) by (apply (In_unique b _ _ aq ND Hhead Hq)).
+      injection E as E.
+      assert (o = OShift).
+      { destruct o; auto. exfalso. apply (Hnp it); [now left|reflexivity]. }
+      subst o. apply IH2; auto.
+      * rewrite Estep, E. destruct (proj b tr ++ q) as [|t1 q1] eqn:Ep.
+        { destruct (proj b tr); cbn in Ep; congruence. }
+        cbn. apply in_or_app. right. now left.
+      * intros it' Hin'. apply Hnp. now right.
+  - split.
+    + intros Hq. destruct (IH1 Hq) as [Hq' Hnp]. split.
+      * eapply astep_In_other; eauto.
+      * intros it' [E|Hin']; [|now apply Hnp]. injection E as <- _. exact Hne.
+    + intros Hqne Hin' Hnp. apply IH2; auto.
+      * apply astep_removed_or_kept; auto.
+      * intros it' Hin''. apply Hnp. now right.
+Qed.
+
+(* an item is available after [tr] iff its account was not popped and the item is the
+   first transaction after those already yielded of the account's affordable prefix *)
+Lemma avail_char pend bf st script tr st' :
+  NoDup (map fst pend) -> new_by_price_and_nonce pend bf = Ok st ->
+  run st script = Ok (tr, st') ->
+  forall it, In it (avail bf pend tr) <->
+    (it_fee it = eff_fee bf (it_tx it) /\ no_pop (it_from it) tr /\
+     exists s, afford_prefix bf (txs_of (it_from it) pend) =
+               proj (it_from it) tr ++ it_tx it :: s).
+Proof.
+  intros ND Hnew Hrun it.
+  destruct (run_from_new _ _ _ _ _ _ ND Hnew Hrun) as (Ht & _).
+  assert (NDq := aq_init_NoDup bf pend ND).
+  assert (ND1 := aq_after_NoDup tr _ NDq).
+  unfold avail. split.
+  - intros Hin. destruct (head_in_split _ _ _ ND1 Hin) as (aq1 & q0 & aq2 & Eaq & Eit & _).
+    assert (Hq : In (it_from it, it_tx it :: q0) (aq_after (aq_init bf pend) tr))
+      by (rewrite Eaq; apply in_or_app; right; now left).
+    apply (aq_after_char bf tr _ NDq Ht) in Hq as [Hq Hnp].
+    apply (aq_init_lookup bf pend _ _ ND) in Hq as [Hq _].
+    split; [rewrite Eit; reflexivity|]. split; auto. exists q0. now symmetry.
+  - intros (Hfee & Hnp & s & Hs).
+    assert (Hq : In (it_from it, it_tx it :: s) (aq_after (aq_init bf pend) tr)).
+    { apply (aq_after_char bf tr _ NDq Ht); auto; [discriminate|].
+      apply (aq_init_lookup bf pend _ _ ND). split; [now symmetry|].
+      destruct (proj (it_from it) tr); discriminate. }
+    unfold head_items. apply in_flat_map. eexists; split; [exact Hq|].
+    cbn. left. destruct it; cbn in *. now subst.
+Qed.
